@@ -11,7 +11,8 @@ DEPS = ["pyindex"]
 RULE = ("cases = (WCS family, shape, item, payload configuration); 1-D shapes exhaustively over all slices with "
         "bounds in [-n-2,n+2]|None, 2-4-D over per-axis boundary sets (ints in [-n-1,n], bounds in "
         "{None,-n-1,-n,-1,0,1,n-1,n,n+1}) sampled with the run's seed, Ellipsis at every position, bare items, "
-        "short/too-long tuples, None entries, steps; non-linear WCS families compared by the direct oracle; "
+        "short/too-long tuples, None entries, steps; non-linear WCS families, lookup-table gWCS, resampled and "
+        "already-sliced cubes (start > 0 / explicit stop, recorded array shape) compared by the direct oracle; "
         "distinct by key; non-trivial = the item is not all slice(None)")
 ASSUMPTIONS = ["numpy basic indexing and astropy SlicedLowLevelWCS are dependency models (np_axis_sel, wcs_axis_sel)",
                "dask payloads observed after compute()", "inner WCS evaluated in floating point; linear probe WCS is exact"]
@@ -102,7 +103,7 @@ def gen(tier, rng):
     nfam = 1200 if tier == "quick" else 12000
     for _ in range(nfam):
         nd = rng.choice((2, 3, 3, 4))
-        fam = rng.choice(FAMILIES[nd][1:] + ["wrapped"] + (["gwcs"] if nd <= 3 else []))
+        fam = rng.choice(FAMILIES[nd][1:] + ["wrapped", "presliced"] + (["gwcs"] if nd <= 3 else []))
         shape = tuple(rng.sample([2, 3, 4, 5], nd))
         its = []
         for n in shape:
@@ -119,6 +120,16 @@ def build_cube(case):
     from astropy.nddata import StdDevUncertainty
     import astropy.units as u
     shape, cfg = tuple(case["shape"]), case["cfg"]
+    if case["fam"] == "presliced":
+        # the cube under test is itself the result of a slice (start > 0, explicit stop or open end): its WCS is
+        # already a SlicedLowLevelWCS that records an array shape
+        nd = len(shape)
+        big = tuple(n + 3 for n in shape)
+        inner = dict(case, fam=("tan" if nd >= 2 else "lin"), shape=list(big), cfg=cfg | 8)
+        cube0, _ = build_cube(inner)
+        pre = tuple(slice(1, n + 1) if (cfg >> a) & 1 else slice(3, None) for a, n in enumerate(shape))
+        cube = cube0[pre]
+        return cube, np.asarray(cube.data)
     n = int(np.prod(shape))
     data = np.arange(n).reshape(shape)
     kw = {}
@@ -172,7 +183,7 @@ def run(case):
         rd = np.asarray(r.data)
         first = None
         if rd.size:
-            first = list(np.unravel_index(int(rd.flat[0]), data.shape))
+            first = list(np.argwhere(data == rd.flat[0])[0])      # (the payload's values are distinct)
             first = [int(x) for x in first]
         ll = r.wcs.low_level_wcs
         woffs = None
